@@ -148,3 +148,69 @@ pub fn allocator_space_name<VM: VMBinding>(
     let a = unsafe { mutator.allocator(selector) };
     Some(a.get_space().get_name())
 }
+
+/// The four treadmill sets of every large object space of the plan (space name, sets in the
+/// order from-space, to-space, collection nursery, allocation nursery).
+pub fn los_treadmills<VM: VMBinding>(mmtk: &MMTK<VM>) -> Vec<(&'static str, [Vec<usize>; 4])> {
+    let mut out = Vec::new();
+    mmtk.get_plan().for_each_space(&mut |s| {
+        if let Some(los) = s.downcast_ref::<crate::policy::largeobjectspace::LargeObjectSpace<VM>>() {
+            let sets = los.verif_treadmill_sets();
+            let conv = |v: &Vec<crate::util::ObjectReference>| {
+                v.iter().map(|o| o.to_raw_address().as_usize()).collect::<Vec<usize>>()
+            };
+            out.push((
+                s.common().name,
+                [conv(&sets[0]), conv(&sets[1]), conv(&sets[2]), conv(&sets[3])],
+            ));
+        }
+    });
+    out
+}
+
+/// For an address inside an Immix space: (mark byte of its line, the space's current line mark
+/// state, name of the space).
+pub fn immix_line_mark<VM: VMBinding>(mmtk: &MMTK<VM>, addr: Address) -> Option<(u8, u8, &'static str)> {
+    use crate::policy::immix::line::Line;
+    use crate::policy::immix::ImmixSpace;
+    use crate::util::linear_scan::Region;
+    let mut out = None;
+    mmtk.get_plan().for_each_space(&mut |s| {
+        if let Some(ix) = s.downcast_ref::<ImmixSpace<VM>>() {
+            if s.address_in_space(addr) {
+                let line = Line::from_unaligned_address(addr);
+                let mark = unsafe { Line::MARK_TABLE.load::<u8>(line.start()) };
+                out = Some((
+                    mark,
+                    ix.line_mark_state.load(std::sync::atomic::Ordering::SeqCst),
+                    s.common().name,
+                ));
+            }
+        }
+    });
+    out
+}
+
+/// Per space: the discontiguous regions linked from the space's page resource (start, chunks).
+pub fn space_regions<VM: VMBinding>(mmtk: &MMTK<VM>) -> Vec<(usize, &'static str, Vec<(usize, usize)>)> {
+    let mut out = Vec::new();
+    mmtk.get_plan().for_each_space(&mut |s| {
+        let c = s.common();
+        let mut regions = Vec::new();
+        if !c.contiguous {
+            let mut r = s.get_page_resource().common().get_head_discontiguous_region();
+            let mut guard = 0;
+            while !r.is_zero() && guard < 1_000_000 {
+                regions.push((r.as_usize(), VM_MAP.get_contiguous_region_chunks(r)));
+                r = VM_MAP.get_next_contiguous_region(r);
+                guard += 1;
+            }
+        }
+        out.push((c.descriptor.get_index(), c.name, regions));
+    });
+    out
+}
+
+pub fn available_discontiguous_chunks() -> usize {
+    VM_MAP.get_available_discontiguous_chunks()
+}
